@@ -44,11 +44,12 @@ func runC01(r *harness.Run) {
 func names(ns ...string) []string { return ns }
 
 // exprPrelude: declarations visible to the function under test.
-//   local up, ups = 7, "x"      (upvalues of test)
-//   gnum, gstr = 4, "5"         (globals)
-//   local t = {x = 6, y = "k", 8}
-//   local function f1() return 9 end
-//   local function f3() return 1, 2, 3 end
+//
+//	local up, ups = 7, "x"      (upvalues of test)
+//	gnum, gstr = 4, "5"         (globals)
+//	local t = {x = 6, y = "k", 8}
+//	local function f1() return 9 end
+//	local function f3() return 1, 2, 3 end
 func exprPrelude() []Stat {
 	return []Stat{
 		Local(names("up", "ups"), Num(7), Str("x")),
@@ -283,7 +284,9 @@ func exprDests() []dest {
 		{"tlast", func(e Expr) []Stat {
 			return []Stat{Local1("tt", TableE(Pos1(Num(5)), Pos1(e))), Emit(Index(Name("tt"), Num(1)), Index(Name("tt"), Num(2)), Index(Name("tt"), Num(3)), Index(Name("tt"), Num(4)))}
 		}},
-		{"tkey", func(e Expr) []Stat { return []Stat{Local1("tt", TableE(NamedField("k", e))), Emit(Dot(Name("tt"), "k"))} }},
+		{"tkey", func(e Expr) []Stat {
+			return []Stat{Local1("tt", TableE(NamedField("k", e))), Emit(Dot(Name("tt"), "k"))}
+		}},
 		{"concat", func(e Expr) []Stat { return []Stat{Emit(Bin("..", Str("p"), e))} }},
 		{"if", func(e Expr) []Stat { return []Stat{IfElse(e, []Stat{Emit(Num(1))}, []Stat{Emit(Num(2))})} }},
 		{"while", func(e Expr) []Stat { return []Stat{While(e, Emit(Num(1)), Break()), Emit(Num(3))} }},
@@ -430,13 +433,13 @@ func genCond(thorough bool) Gen {
 			{"true", func() Expr { return True() }},
 			{"false", func() Expr { return False() }},
 			{"nil", func() Expr { return Nil() }},
-			{"lt", func() Expr { return Bin("<", Name("la"), Name("up")) }},   // 3 < 7  true
-			{"gt", func() Expr { return Bin(">", Name("la"), Name("up")) }},   // false
-			{"eq", func() Expr { return Bin("==", Name("ls"), Str("10")) }},   // true
-			{"num", func() Expr { return Name("la") }},                       // truthy non-boolean
-			{"lnil", func() Expr { return Name("lnil") }},                    // falsy non-boolean
-			{"call", func() Expr { return CallN("tick", Num(1)) }},           // side effect, returns its argument
-			{"callf", func() Expr { return CallN("tick", False()) }},         // side effect, returns false
+			{"lt", func() Expr { return Bin("<", Name("la"), Name("up")) }}, // 3 < 7  true
+			{"gt", func() Expr { return Bin(">", Name("la"), Name("up")) }}, // false
+			{"eq", func() Expr { return Bin("==", Name("ls"), Str("10")) }}, // true
+			{"num", func() Expr { return Name("la") }},                      // truthy non-boolean
+			{"lnil", func() Expr { return Name("lnil") }},                   // falsy non-boolean
+			{"call", func() Expr { return CallN("tick", Num(1)) }},          // side effect, returns its argument
+			{"callf", func() Expr { return CallN("tick", False()) }},        // side effect, returns false
 		}
 		type tree struct {
 			name  string
@@ -541,7 +544,9 @@ func genCond(thorough bool) Gen {
 					}
 					pre := func() []Stat { return append(exprPrelude(), tickDef()) }
 					yield(&Prog{Family: "F-cond", Shape: fmt.Sprintf("chain:%s%d/%d@value", op, n, falseAt), Mk: func() *Block { return wrapTest(pre(), []Stat{Emit(mk())}) }})
-					yield(&Prog{Family: "F-cond", Shape: fmt.Sprintf("chain:%s%d/%d@if", op, n, falseAt), Mk: func() *Block { return wrapTest(pre(), []Stat{IfElse(mk(), []Stat{Emit(Num(1))}, []Stat{Emit(Num(2))})}) }})
+					yield(&Prog{Family: "F-cond", Shape: fmt.Sprintf("chain:%s%d/%d@if", op, n, falseAt), Mk: func() *Block {
+						return wrapTest(pre(), []Stat{IfElse(mk(), []Stat{Emit(Num(1))}, []Stat{Emit(Num(2))})})
+					}})
 				}
 			}
 		}
